@@ -1,4 +1,4 @@
-(* Stages B-E, part 3: the VM model running [pcode] from an empty stack ends with exactly the value - or stops with
+(* Stages B-F, part 3: the VM model running [pcode] from an empty stack ends with exactly the value - or stops with
    exactly the error class - that [run_stmts] gives (whenever the latter's fuel suffices); the visible variable at
    position i lives in the global slot [scope]_i; conditionals and loops, nested to any depth, run through their jumps;
    when a block ends, its slots simply stay behind. *)
@@ -630,12 +630,162 @@ Section VarVM.
   Qed.
 
 
+  (* the rounds of a three-clause loop (after its init clause); [scope] includes the loop variable, k is the next free
+     slot; n: the source fuel of body and post; kk: the rounds *)
+  Lemma simple_wf_lp lp lp' n p : P.is_simple p = true -> P.wf_stmt lp n p = P.wf_stmt lp' n p.
+  Proof. destruct p; try discriminate; reflexivity. Qed.
+  Lemma simple_next_scope k scope p : P.is_simple p = true -> P.next_scope k scope p = scope.
+  Proof. destruct p; try discriminate; reflexivity. Qed.
+  Lemma simple_not_expr p : P.is_simple p = true -> P.is_expr_stmt p = false.
+  Proof. destruct p; try discriminate; reflexivity. Qed.
+
+  Lemma vm_floop n cnd p b base pre post kv k scope lp0 cc kc cb kb cp kp :
+    stmt_vm n ->
+    cexp_in scope base cnd = (cc, kc) -> P.block_code k scope (base + length kc) b = (cb, kb) ->
+    P.stmt_code k scope (base + length kc + length kb) p = (cp, kp) ->
+    let hl := length cc + 2 in
+    let cont := hl + length cb + 1 in
+    let jbn := cont + length cp in
+    instr = pre ++ cc ++ [opPopJumpForwardIfFalse; N.of_nat (length cb + 1 + length cp + 4)] ++ npatch hl (jbn + 2) cont cb ++
+            [opPopTop] ++ P.strip cp ++ [opJumpBackward; N.of_nat jbn] ++ post ->
+    consts_at base (kc ++ kb ++ kp) ->
+    below + Nat.max (F.need cnd) (Nat.max (P.sneed p) (P.max_need b)) <= MAXSTACK ->
+    F.wf kv cnd = true -> P.is_simple p = true -> P.wf_stmt lp0 kv p = true -> P.wf_stmts true kv b = true ->
+    forall kk rho s r L bt ct, length rho = kv -> vm_inv rho scope s -> slots_ok k (P.ndecls b) scope s ->
+    P.loop3 (P.run_stmt n) cnd p b kk rho = Some r ->
+    PF.no_ctl r /\
+    after r (good scope s) (good scope s) s (length pre) (length pre + (jbn + 2)) L bt ct (fun _ => []).
+  Proof.
+    intros Hst Ec Eb Ep hl cont jbn Hi Hc Hn Hwc Hsp Hwp Hwb.
+    set (pb := npatch hl (jbn + 2) cont cb) in *.
+    assert (Hlpb : length pb = length cb) by (apply (npatch_length hl); reflexivity).
+    assert (Hlcp : length (P.strip cp) = length cp) by apply strip_length.
+    set (off := N.of_nat (length cb + 1 + length cp + 4)) in *. set (jb := N.of_nat jbn) in *.
+    assert (Hoff : N.to_nat off = length cb + 1 + length cp + 4) by (unfold off; apply Nat2N.id).
+    assert (Hjbn : N.to_nat jb = jbn) by (unfold jb; apply Nat2N.id).
+    set (Pp := pre ++ cc).
+    assert (HP : length Pp = length pre + length cc) by (unfold Pp; apply app_length).
+    set (Q := Pp ++ [opPopJumpForwardIfFalse; off]).
+    assert (HQ : length Q = length pre + hl) by (unfold Q, hl; rewrite app_length, HP; cbn [length]; lia).
+    set (R := Q ++ pb).
+    assert (HR : length R = length pre + hl + length cb) by (unfold R; rewrite app_length, Hlpb, HQ; reflexivity).
+    set (R1 := R ++ [opPopTop]).
+    assert (HR1 : length R1 = length pre + cont) by (unfold R1, cont; rewrite app_length, HR; cbn [length]; lia).
+    set (R2 := R1 ++ P.strip cp).
+    assert (HR2 : length R2 = length pre + jbn) by (unfold R2, jbn; rewrite app_length, HR1, Hlcp; lia).
+    assert (Hic : instr = pre ++ fst (cexp_in scope base cnd) ++ ([opPopJumpForwardIfFalse; off] ++ pb ++ [opPopTop] ++ P.strip cp ++ [opJumpBackward; jb] ++ post))
+      by (rewrite Ec; cbn [fst]; exact Hi).
+    assert (Hkc : consts_at base (snd (cexp_in scope base cnd))) by (rewrite Ec; exact (consts_l kc (kb ++ kp) base Hc)).
+    pose proof (consts_r kc (kb ++ kp) base Hc) as Hkrest.
+    assert (Hc1 : instr = Pp ++ opPopJumpForwardIfFalse :: off :: (pb ++ [opPopTop] ++ P.strip cp ++ [opJumpBackward; jb] ++ post))
+      by (rewrite Hi; unfold Pp; rewrite <- !app_assoc; reflexivity).
+    assert (Hib : instr = Q ++ npatch (length Q - length pre) (jbn + 2) cont (fst (P.block_code k scope (base + length kc) b)) ++
+                          ([opPopTop] ++ P.strip cp ++ [opJumpBackward; jb] ++ post)).
+    { rewrite Eb. cbn [fst]. replace (length Q - length pre) with hl by (rewrite HQ; lia).
+      fold pb. rewrite Hi. unfold Q, Pp. rewrite <- !app_assoc. reflexivity. }
+    assert (Hkb : consts_at (base + length kc) (snd (P.block_code k scope (base + length kc) b)))
+      by (rewrite Eb; exact (consts_l kb kp _ Hkrest)).
+    assert (Hinb : inside true Q (length (fst (P.block_code k scope (base + length kc) b))) (length pre) (jbn + 2) cont).
+    { rewrite Eb. cbn [fst]. intros _. rewrite HQ. unfold cont, jbn, cont. repeat split; lia. }
+    assert (Hnpp : no_ph cp).
+    { pose proof (stmt_no_ph (P.sheight p) p kv k scope (base + length kc + length kb) (le_n _)
+                    ltac:(rewrite (simple_wf_lp false lp0 kv p Hsp); exact Hwp)) as H0. rewrite Ep in H0. exact H0. }
+    assert (Hip : instr = R1 ++ npatch (length R1 - 0) 0 0 (fst (P.stmt_code k scope (base + length kc + length kb) p)) ++ ([opJumpBackward; jb] ++ post)).
+    { rewrite Ep. cbn [fst]. rewrite (npatch_no_ph 0 0 cp _ Hnpp). rewrite Hi. unfold R1, R, Q, Pp. rewrite <- !app_assoc. reflexivity. }
+    assert (Hkp : consts_at (base + length kc + length kb) (snd (P.stmt_code k scope (base + length kc + length kb) p)))
+      by (rewrite Ep; exact (consts_r kb kp _ Hkrest)).
+    assert (Hpop : instr = R ++ opPopTop :: (P.strip cp ++ [opJumpBackward; jb] ++ post))
+      by (rewrite Hi; unfold R, Q, Pp; rewrite <- !app_assoc; reflexivity).
+    assert (Hjmp : instr = R2 ++ opJumpBackward :: jb :: post)
+      by (rewrite Hi; unfold R2, R1, R, Q, Pp; rewrite <- !app_assoc; reflexivity).
+    assert (Hjump : forall f s1, runs (S f) (length pre + jbn) [] s1 = runs f (length pre) [] s1).
+    { intros f s1. rewrite (step_jumpback f (length pre + jbn) [] s1) by (rewrite Hjmp, <- HR2; apply at0).
+      assert (E : nth (length pre + jbn + 1) instr 0%N = jb) by (rewrite Hjmp, <- HR2; apply at1).
+      rewrite E, Hjbn. replace (length pre + jbn - jbn) with (length pre) by lia. reflexivity. }
+    induction kk as [|kk IH]; intros rho s r L bt ct Hkv Hinv Hsl Hr; [discriminate|].
+    rewrite PF.loop3_S in Hr.
+    pose proof (vm_inv_globals_at rho scope s Hinv) as Hg.
+    rewrite <- Hkv in Hwc, Hwp, Hwb.
+    destruct (vm_scalar_at tabs c below frames free defers is_main s (P.slot_of scope) rho Hg cnd base pre _ [] Hwc Hic Hkc ltac:(cbn [length]; lia)) as [n1 Hr1].
+    rewrite Ec in Hr1. cbn [fst] in Hr1. unfold outcome_of in Hr1. rewrite <- HP in Hr1.
+    destruct (F.sev rho cnd) as [vc|xc].
+    2:{ inversion Hr; subst r. split; [exact Logic.I|]. exists n1, s. exact Hr1. }
+    assert (Hs1 : forall f, runs (S f) (length Pp) [inj vc] s =
+                            runs f (if F.struthy vc then length Pp + 2 else length Pp + (length cb + 1 + length cp + 4)) [] s).
+    { intros f.
+      rewrite (step_popjump tabs c below frames free defers is_main s f (length Pp) [] (inj vc) (F.struthy vc) opPopJumpForwardIfFalse);
+        [|rewrite Hc1; apply at0|auto|apply truthy_inj].
+      assert (E : nth (length Pp + 1) instr 0%N = off) by (rewrite Hc1; apply at1).
+      rewrite E, Hoff. change (opPopJumpForwardIfFalse =? 12)%N with true. cbn iota.
+      destruct (F.struthy vc); reflexivity. }
+    destruct (F.struthy vc) eqn:Etr.
+    2:{ (* the loop ends *)
+        inversion Hr; subst r. split; [exact Logic.I|]. exists (n1 + 1), s. split; [split; [exact Hinv|reflexivity]|]. intros f.
+        rewrite <- Nat.add_assoc, Hr1. cbn [Nat.add]. rewrite Hs1, HP. f_equal. unfold jbn, cont, hl. lia. }
+    (* after the body: PopTop is done, the machine is at the post statement with the variables rho1 *)
+    assert (Hafter : forall rho1 s1 k0, length rho1 = length rho -> good scope s rho1 s1 ->
+              (forall f, runs (k0 + f) (length pre) [] s = runs f (length pre + cont) [] s1) ->
+              match P.run_stmt n rho1 p with Some (inl (rho2, _)) => P.loop3 (P.run_stmt n) cnd p b kk rho2 | other => other end = Some r ->
+              PF.no_ctl r /\ after r (good scope s) (good scope s) s (length pre) (length pre + (jbn + 2)) L bt ct (fun _ => [])).
+    { intros rho1 s1 k0 Hl1 [Hinv1 Hgl1] Hround H.
+      destruct (P.run_stmt n rho1 p) as [rp|] eqn:Erp; [|discriminate].
+      pose proof (PF.simple_res n rho1 p rp Hsp Erp) as Hres.
+      assert (Hslp : slots_ok k (P.nd p) scope s1).
+      { rewrite (PF.nd_simple p Hsp). apply (slots_ok_state _ _ _ s); [|exact Hgl1]. apply (slots_ok_less _ _ _ _ _ Hsl). lia. }
+      assert (Hwp1 : P.wf_stmt false (length rho1) p = true) by (rewrite Hl1, (simple_wf_lp false lp0 _ p Hsp); exact Hwp).
+      destruct (Hst p rho1 scope k s1 (base + length kc + length kb) R1 _ false 0 0 0 rp Hinv1 Hslp Hwp1 Hip Hkp ltac:(lia)
+                  ltac:(intros Hx; discriminate) Erp) as [n3 [s3 Hr3]].
+      rewrite Ep in Hr3. cbn [fst] in Hr3. rewrite (simple_next_scope k scope p Hsp), (simple_not_expr p Hsp), HR1 in Hr3.
+      destruct rp as [[rho2 v2]|[x|rho2|rho2]]; cbn [PF.same_len] in Hres; try contradiction.
+      - destruct Hr3 as [[Hinv2 Hgl2] Hr3]. destruct Hres as [Hl2 _].
+        assert (Hgl2' : length (globals s3) = length (globals s)) by congruence.
+        destruct (IH rho2 s3 r L bt ct ltac:(lia) Hinv2 (slots_ok_state _ _ _ s s3 Hsl Hgl2') H) as [Hno [n4 [s4 Hr4]]].
+        split; [exact Hno|]. exists (k0 + (n3 + (1 + n4))), s4.
+        assert (Hgo : forall f, runs (k0 + (n3 + (1 + n4)) + f) (length pre) [] s = runs (n4 + f) (length pre) [] s3).
+        { intros f. rewrite <- !Nat.add_assoc, Hround, Hr3.
+          replace (length pre + cont + length cp) with (length pre + jbn) by (unfold jbn; lia).
+          replace (1 + (n4 + f)) with (S (n4 + f)) by lia. apply Hjump. }
+        destruct r as [[rho3 v3]|[x3|rho3|rho3]]; cbn [PF.no_ctl] in Hno; try contradiction.
+        + destruct Hr4 as [Hinv4 Hr4]. split; [exact (good_trans _ _ _ _ _ Hgl2' Hinv4)|]. intros f. rewrite Hgo. apply Hr4.
+        + intros f. rewrite Hgo. apply Hr4.
+      - inversion H; subst r. split; [exact Logic.I|]. exists (k0 + n3), s3. intros f. rewrite <- Nat.add_assoc, Hround. apply Hr3. }
+    destruct (PF.run_blk n rho b) as [[[rho1 v1]|[xb|rho1|rho1]]|] eqn:Erb; [| | | |discriminate].
+    - destruct (vm_block n Hst b rho scope k s (base + length kc) Q _ true (length pre) (jbn + 2) cont _ Hinv Hsl Hwb Hib Hkb ltac:(lia) Hinb Erb)
+        as [n2 [s1 [Hinv1 Hr2]]].
+      rewrite Eb in Hr2. cbn [fst] in Hr2.
+      pose proof (PF.run_block_length n b rho _ Erb) as Hl1. cbn [PF.lenb_ok] in Hl1.
+      apply (Hafter rho1 s1 (n1 + (1 + (n2 + 1))) Hl1 Hinv1); [|exact Hr].
+      intros f. rewrite <- !Nat.add_assoc, Hr1. replace (1 + (n2 + (1 + f))) with (S (n2 + (S f))) by lia.
+      rewrite Hs1, HP. replace (length pre + length cc + 2) with (length Q) by (rewrite HQ; unfold hl; lia). rewrite Hr2.
+      replace (length Q + length cb) with (length R) by (rewrite HR, HQ; reflexivity).
+      rewrite (step_pop f (length R) [] (inj v1) s1) by (rewrite Hpop; apply at0).
+      f_equal. rewrite HR. unfold cont. lia.
+    - destruct (vm_block n Hst b rho scope k s (base + length kc) Q _ true (length pre) (jbn + 2) cont _ Hinv Hsl Hwb Hib Hkb ltac:(lia) Hinb Erb)
+        as [n2 [s1 Hr2]].
+      inversion Hr; subst r. split; [exact Logic.I|]. exists (n1 + (1 + n2)), s1. intros f.
+      rewrite <- Nat.add_assoc, Hr1. replace (1 + n2 + f) with (S (n2 + f)) by lia. rewrite Hs1, HP.
+      replace (length pre + length cc + 2) with (length Q) by (rewrite HQ; unfold hl; lia). apply Hr2.
+    - (* break: on to the instruction behind the JumpBackward *)
+      destruct (vm_block n Hst b rho scope k s (base + length kc) Q _ true (length pre) (jbn + 2) cont _ Hinv Hsl Hwb Hib Hkb ltac:(lia) Hinb Erb)
+        as [n2 [s1 [Hinv1 Hr2]]].
+      inversion Hr; subst r. split; [exact Logic.I|]. exists (n1 + (1 + n2)), s1. split; [exact Hinv1|]. intros f.
+      rewrite <- !Nat.add_assoc, Hr1. replace (1 + (n2 + f)) with (S (n2 + f)) by lia. rewrite Hs1, HP.
+      replace (length pre + length cc + 2) with (length Q) by (rewrite HQ; unfold hl; lia). apply Hr2.
+    - (* continue: on to the post statement *)
+      destruct (vm_block n Hst b rho scope k s (base + length kc) Q _ true (length pre) (jbn + 2) cont _ Hinv Hsl Hwb Hib Hkb ltac:(lia) Hinb Erb)
+        as [n2 [s1 [Hinv1 Hr2]]].
+      pose proof (PF.run_block_length n b rho _ Erb) as Hl1. cbn [PF.lenb_ok] in Hl1.
+      apply (Hafter rho1 s1 (n1 + (1 + n2)) Hl1 Hinv1); [|exact Hr].
+      intros f. rewrite <- !Nat.add_assoc, Hr1. replace (1 + (n2 + f)) with (S (n2 + f)) by lia. rewrite Hs1, HP.
+      replace (length pre + length cc + 2) with (length Q) by (rewrite HQ; unfold hl; lia). apply Hr2.
+  Qed.
+
   Theorem vm_stmt : forall n, stmt_vm n.
   Proof.
     induction n as [n IH] using lt_wf_ind.
     destruct n as [|n]; [intros st rho scope k s base pre post lp L bt ct r _ _ _ _ _ _ _ Hr; discriminate|].
     intros st rho scope k s base pre post lp L bt ct r Hinv Hsl Hwf Hi Hc Hn Hin Hr.
-    destruct st as [e|i e|i o e|i up|e|cnd t el|cnd t|cnd b| |].
+    destruct st as [e|i e|i o e|i up|e|cnd t el|cnd t|cnd b|e cnd p b| |].
     - (* x := e *)
       cbn [P.stmt_code P.wf_stmt P.is_expr_stmt P.run_stmt P.sneed P.nd P.next_scope] in *.
       destruct (cexp_in scope base e) as [ce ke] eqn:Ee. cbn [fst snd] in *. rewrite npatch_I in Hi. rewrite I_length.
@@ -883,6 +1033,81 @@ Section VarVM.
       rewrite PF.nd_SWhile in Hsl.
       exact (proj2 (vm_loop cnd b base pre post (length rho) k scope Hi Hc Hn Hwc Hwb (S n) ltac:(intros j Hj; apply IH; lia)
                      rho s r L bt ct eq_refl Hinv Hsl Hr)).
+    - (* for x := e; cnd; p { b } *)
+      rewrite PF.wf_SFor in Hwf. apply andb_true_iff in Hwf. destruct Hwf as [Hwf Hwb].
+      apply andb_true_iff in Hwf. destruct Hwf as [Hwf Hwp]. apply andb_true_iff in Hwf. destruct Hwf as [Hwf Hsp].
+      apply andb_true_iff in Hwf. destruct Hwf as [Hwe Hwc].
+      cbn [P.next_scope P.is_expr_stmt] in *.
+      assert (Hnp : no_ph (fst (P.stmt_code k scope base (P.SFor e cnd p b)))).
+      { rewrite PF.code_SFor. destruct (cexp_in scope base e) as [ci0 ki0]. cbv zeta.
+        destruct (cexp_in (scope ++ [k]) (base + length ki0) cnd) as [cc0 kc0].
+        destruct (P.block_code (S k) (scope ++ [k]) (base + length ki0 + length kc0) b) as [cb0 kb0].
+        destruct (P.stmt_code (S k) (scope ++ [k]) (base + length ki0 + length kc0 + length kb0) p) as [cp0 kp0].
+        cbn [fst]. apply no_ph_app; [apply no_ph_I|]. apply no_ph_app; [apply no_ph_patch|apply no_ph_I]. }
+      rewrite (npatch_no_ph bt ct _ _ Hnp) in Hi. clear Hnp Hin.
+      rewrite PF.nd_SFor in Hsl. rewrite PF.sneed_SFor in Hn. rewrite PF.run_SFor in Hr.
+      rewrite PF.code_SFor in *.
+      destruct (cexp_in scope base e) as [ci ki] eqn:Ei. cbv zeta in *.
+      destruct (cexp_in (scope ++ [k]) (base + length ki) cnd) as [cc kc] eqn:Ec.
+      destruct (P.block_code (S k) (scope ++ [k]) (base + length ki + length kc) b) as [cb kb] eqn:Eb.
+      destruct (P.stmt_code (S k) (scope ++ [k]) (base + length ki + length kc + length kb) p) as [cp kp] eqn:Ep.
+      cbn [fst snd] in *.
+      set (hl := length cc + 2). set (cont := hl + length cb + 1). set (jbn := cont + length cp).
+      set (head := I cc ++ I [opPopJumpForwardIfFalse; (nlen cb + 1 + nlen cp + 2 + 2)%N]) in *.
+      assert (Hhl : nlen head = N.of_nat hl) by (unfold nlen, head, hl; rewrite app_length, !I_length; reflexivity).
+      rewrite Hhl in *.
+      replace (N.of_nat hl + nlen cb + 1)%N with (N.of_nat cont) in * by (unfold nlen, cont; lia).
+      replace (N.of_nat cont + nlen cp)%N with (N.of_nat jbn) in * by (unfold nlen, jbn; lia).
+      replace (N.of_nat jbn + 2)%N with (N.of_nat (jbn + 2)) in * by lia.
+      replace (nlen cb + 1 + nlen cp + 2 + 2)%N with (N.of_nat (length cb + 1 + length cp + 4)) in * by (unfold nlen; lia).
+      assert (Hnpp : no_ph cp).
+      { pose proof (stmt_no_ph (P.sheight p) p (S (length rho)) (S k) (scope ++ [k]) (base + length ki + length kc + length kb) (le_n _)
+                      ltac:(rewrite (simple_wf_lp false lp _ p Hsp); exact Hwp)) as H0. rewrite Ep in H0. exact H0. }
+      assert (Hlen : length (I (ci ++ [opStoreGlobal; N.of_nat k]) ++ patch 0 (N.of_nat (jbn + 2)) (N.of_nat cont) (head ++ cb ++ I [opPopTop] ++ cp) ++
+                             I [opJumpBackward; N.of_nat jbn]) = length ci + 2 + (jbn + 2)).
+      { rewrite !app_length, patch_length, !app_length, !I_length, app_length. unfold head. rewrite app_length, !I_length.
+        unfold jbn, cont, hl. cbn [length]. lia. }
+      rewrite Hlen.
+      rewrite strip_app, strip_I, strip_app, strip_I, (strip_patch 0 (jbn + 2) cont _ 0%N eq_refl) in Hi.
+      unfold head in Hi. rewrite !npatch_app, !npatch_I, !app_length, !I_length in Hi. cbn [length Nat.add] in Hi.
+      replace (nlen cb + 1 + nlen cp + 2 + 2)%N with (N.of_nat (length cb + 1 + length cp + 4)) in Hi by (unfold nlen; lia).
+      rewrite (npatch_no_ph _ _ cp _ Hnpp) in Hi.
+      replace (length cc + 2) with hl in Hi by reflexivity.
+      (* the init clause *)
+      assert (Hi' : instr = pre ++ fst (cexp_in scope base e) ++ [opStoreGlobal; N.of_nat k] ++
+                            ((cc ++ [opPopJumpForwardIfFalse; N.of_nat (length cb + 1 + length cp + 4)]) ++
+                             npatch hl (jbn + 2) cont cb ++ [opPopTop] ++ P.strip cp) ++ [opJumpBackward; N.of_nat jbn] ++ post)
+        by (rewrite Ei; cbn [fst]; rewrite Hi, <- !app_assoc; reflexivity).
+      assert (Hc' : consts_at base (snd (cexp_in scope base e))) by (rewrite Ei; exact (consts_l ki (kc ++ kb ++ kp) base Hc)).
+      destruct (vm_store rho scope s e base pre _ k Hinv Hwe Hi' Hc' ltac:(lia)) as [k1 Hk].
+      rewrite Ei in Hk. cbn [fst] in Hk.
+      destruct (F.sev rho e) as [v|x]; [|inversion Hr; subst r; exists k1, s; exact Hk].
+      set (s0 := upd_globals s (lset (globals s) k (inj v))) in *.
+      assert (Hgl0 : length (globals s0) = length (globals s)) by apply length_lset.
+      assert (Hinv0 : vm_inv (rho ++ [v]) (scope ++ [k]) s0) by (apply vm_inv_decl; [exact Hinv|apply (slots_ok_less _ _ _ _ _ Hsl); lia]).
+      assert (Hsl0 : slots_ok (S k) (P.ndecls b) (scope ++ [k]) s0).
+      { destruct Hsl as [Hf Hk0]. split; [|rewrite Hgl0; lia].
+        apply Forall_app. split; [eapply Forall_impl; [|exact Hf]; cbn; intros; lia|constructor; [lia|constructor]]. }
+      destruct (P.loop3 (P.run_stmt n) cnd p b n (rho ++ [v])) as [r0|] eqn:E; [|discriminate]. cbn [option_map] in Hr. inversion Hr; subst r. clear Hr.
+      set (pre1 := pre ++ ci ++ [opStoreGlobal; N.of_nat k]).
+      assert (Hl1 : length pre1 = length pre + length (ci ++ [opStoreGlobal; N.of_nat k])) by (unfold pre1; rewrite app_length; reflexivity).
+      assert (Hi1 : instr = pre1 ++ cc ++ [opPopJumpForwardIfFalse; N.of_nat (length cb + 1 + length cp + 4)] ++ npatch hl (jbn + 2) cont cb ++
+                            [opPopTop] ++ P.strip cp ++ [opJumpBackward; N.of_nat jbn] ++ post)
+        by (rewrite Hi; unfold pre1; rewrite <- !app_assoc; reflexivity).
+      assert (Hlr : length (rho ++ [v]) = S (length rho)) by (rewrite app_length; cbn [length]; lia).
+      destruct (vm_floop n cnd p b (base + length ki) pre1 post (S (length rho)) (S k) (scope ++ [k]) lp cc kc cb kb cp kp (IH n ltac:(lia))
+                  Ec Eb Ep Hi1 (consts_r ki (kc ++ kb ++ kp) base Hc) ltac:(lia) Hwc Hsp Hwp Hwb n (rho ++ [v]) s0 r0 L bt ct Hlr Hinv0 Hsl0 E)
+        as [Hno [n2 [s2 Hr2]]].
+      exists (k1 + n2), s2.
+      assert (Hls : length scope = length rho) by (destruct Hinv as [H0 _]; exact H0).
+      assert (Hpos : length pre + length (ci ++ [opStoreGlobal; N.of_nat k]) = length pre1) by (rewrite Hl1; reflexivity).
+      destruct r0 as [[rho' v']|[x|rho'|rho']]; cbn [PF.no_ctl P.trunc] in *; try contradiction.
+      + destruct Hr2 as [Hg2 Hr2]. split.
+        * assert (Hle : length rho <= length rho').
+          { destruct Hg2 as [[Hl2 _] _]. rewrite app_length in Hl2. cbn [length] in Hl2. lia. }
+          exact (good_trans _ _ _ _ _ Hgl0 (good_firstn scope [k] s0 rho rho' s2 Hg2 Hls Hle)).
+        * intros f. rewrite <- Nat.add_assoc, Hk, Hpos, Hr2. f_equal. rewrite Hl1, app_length. cbn [length]. lia.
+      + intros f. rewrite <- Nat.add_assoc, Hk, Hpos. apply Hr2.
     - (* break: jump to the loop's break target *)
       cbn [P.wf_stmt] in Hwf. subst lp. destruct (Hin eq_refl) as [H1 [H2 H3]].
       cbn [P.run_stmt] in Hr. inversion Hr; subst r. clear Hr.
